@@ -252,7 +252,17 @@ func (c *simTCP) Write(p []byte) (int, error) {
 			h.mu.Unlock()
 			return written, c.opErr("write", syscall.EPIPE)
 		}
-		if room := h.cap - len(h.flight) - len(h.ready); room > 0 {
+		room := h.cap - len(h.flight) - len(h.ready)
+		if room < len(p) && len(p) <= 512 && !deadline.IsZero() {
+			// a short write under a deadline (TLS close_notify: 5 s) is taken
+			// beyond the window. On a real host it would sit out its deadline
+			// against a full socket buffer; here its caller (net/http) holds a
+			// real mutex meanwhile, a second goroutine contending for that
+			// mutex is not durably blocked, and the virtual clock could never
+			// reach the deadline.
+			room = len(p)
+		}
+		if room > 0 {
 			n := len(p)
 			if n > room {
 				n = room
